@@ -80,7 +80,17 @@ where
     let shrinking = RefCell::new(false);
     let first_size = RefCell::new(None::<u64>);
     let stats_cell = RefCell::new(std::mem::take(stats));
+    // Wall-clock budget for shrinking (a failing case can be very expensive, e.g. a livelocked worker that
+    // runs into the step limit): once it is used up, further candidates are refused unevaluated, so the
+    // replay is merely less minimal. The verdict never depends on it.
+    let shrink_budget = std::time::Duration::from_secs(
+        std::env::var("VERIF_SHRINK_BUDGET_S").ok().and_then(|v| v.parse().ok()).unwrap_or(240),
+    );
+    let shrink_started = RefCell::new(None::<std::time::Instant>);
     let result = runner.run(strategy, |v| {
+        if *shrinking.borrow() && shrink_started.borrow().map(|t| t.elapsed() > shrink_budget).unwrap_or(false) {
+            return Ok(());
+        }
         let out = eval(&v);
         let in_shrink = *shrinking.borrow();
         if !in_shrink {
@@ -103,6 +113,7 @@ where
             Some((sig, _what)) => {
                 if !in_shrink {
                     *shrinking.borrow_mut() = true;
+                    *shrink_started.borrow_mut() = Some(std::time::Instant::now());
                     *first_size.borrow_mut() = Some(to_json(&v).to_string().len() as u64);
                 }
                 Err(TestCaseError::fail(sig))
